@@ -1,6 +1,7 @@
 import OasisProofs.Helpers.Fees
 import OasisModel.Handlers.Flow
 import Generated.FatalPaths
+import OasisProofs.Props.C10Sound
 /-
 C10 — no block content can halt block execution.
 
@@ -26,7 +27,9 @@ regenerated from /repo's Go source (`tools/gen fatalpaths` → `Generated/FatalP
 same-package callees and the state package inlined) and must equal — site for site — the ledger
 below, in which each site carries the class that discharges it.  A new fallible step in block
 processing, a removed guard that turns into a new error return, or a changed error path breaks
-`ledger_matches_source`.
+`ledger_matches_source`.  The collection `errSites` is PROVED COMPLETE (`Props/C10Sound.lean`)
+against the concrete path semantics of the skeleton language (`OasisModel/Handlers/FlowSem.lean`);
+`ledger_complete` at the end of this file composes that proof with the kernel-checked ledger.
 -/
 namespace OasisProofs.C10
 open OasisModel.Handlers OasisModel.Handlers.Fees OasisProofs.Fees
@@ -144,9 +147,15 @@ inductive Cls where
        -- fails here — a halt by design (`abci/mux.go:717-726`)
   | A  -- fee arithmetic: unreachable by `feesP_total` / `feesVQ_total` above
   | M  -- big-integer arithmetic of rewards, commission, slashing, debonding and the proposal tally:
-       -- unreachable under the ledger invariants (divisors are non-zero constants or guarded,
-       -- every Move/Sub takes at most what the source holds); modelled and proved in C05/C15 where
-       -- the share-pool and ledger models cover them, otherwise argued from the guards in the source
+       -- discharged by the totality theorems of `Props/C10Ledger.lean` (over the C05 ledger model, whose
+       -- arithmetic is tied to the Go source by the regenerated `Generated/SharePoolGen` bridge lemmas of C15:
+       -- `attenuatedAmountSteps_total`, `addRewardSingleAttenuated_total`, `computeCommission_total`,
+       -- `rewardAccount_total`, `addRewards_total`, `slashEscrowSteps_total`, `onEpochChange_total`,
+       -- `beginBlock_total`, `endBlock_total`, `runChain_total`) and `Props/C10Tally.lean`
+       -- (`tally_total`, `closeProposal_total`, `closeAll_total`), each under hypotheses shown necessary by a
+       -- witness; argued-only remain: the two `FromInt64(len …)` imports, `SetDebondingDelegation` merging
+       -- (onEpochChange passes nil) and the scheduler's voting-power computation (bounded by the genesis
+       -- total-supply check)
   | P  -- the documented precondition: enough stake-eligible validators remain to elect a validator
        -- set / total voting stake is non-zero when a proposal closes
   | H  -- halt by design: scheduled upgrade the running binary does not support
@@ -348,5 +357,25 @@ theorem roots_match : Generated.FatalPaths.all.map (·.1) = ledger.map (·.1) :=
 
 /-- Number of sites per class (for the evidence). -/
 def countCls (c : Cls) : Nat := (ledger.map (fun p => (p.2.filter (fun s => s.2 == c)).length)).sum
+
+/-! ### the ledger composed with the completeness proof of the collection -/
+
+set_option maxRecDepth 100000 in
+/-- The fuel used for the ledger covers the nesting depth of every regenerated root. -/
+theorem ledger_fuel_suffices : Generated.FatalPaths.all.all (fun p => p.2.depth ≤ 200) = true := by
+  decide +kernel
+
+/-- **Every regenerated BeginBlock/EndBlock root, every path** (of the skeleton's concrete
+semantics, `FlowSem.Path`): an ordinary (not state-unavailable) error that the root can return
+originates at a site that the ledger lists — and classifies — for that root. -/
+theorem ledger_complete (name : String) (f : Flow) (hmem : (name, f) ∈ Generated.FatalPaths.all)
+    (tr : List Act) (q : String) (chain : List String) (σ' : Cfg)
+    (hp : Path f initCfg tr (.ret (.err q) chain) σ') :
+    ∃ sites, expectedSites name = some sites ∧ q ∈ sites := by
+  have h := List.all_eq_true.1 ledger_matches_source (name, f) hmem
+  have hd := List.all_eq_true.1 ledger_fuel_suffices (name, f) hmem
+  simp only [rootMatches, beq_iff_eq] at h
+  simp only [decide_eq_true_eq] at hd
+  exact ⟨errSites 200 f, h.symm, C10Sound.errSites_complete 200 f hd tr q chain σ' hp⟩
 
 end OasisProofs.C10
